@@ -33,6 +33,8 @@ def run(ctx, res):
         os.remove(tpath)
         if d["patterns"] != len(lines) + d["corpus_files"] + d["harvested"] or (maxlen == 3 and d["harvested"] == 0) or d["compiled"] == 0 or d["argument_errors_seen"] == 0:
             raise vlib.Broken(f"replayer consumed {d['patterns']} of {len(lines)} token strings (+{d['corpus_files']} corpus files)")
+        if d.get("slow_calls_not_reproduced"):
+            ctx.log(f"note: {d['slow_calls_not_reproduced']} pattern(s) had a call exceeding the 20 s watchdog in the parallel run that returned normally when re-run alone (machine load; not a verdict)")
         ctx.log(f"maxlen={maxlen} stride={stride}: patterns={d['patterns']} compiled={d['compiled']} parse_errors={d['parse_errors']} calls={d['calls']} mismatches={len(d['mismatches'])}")
         for m in d["mismatches"]:
             res.violation(m)
